@@ -90,6 +90,31 @@ func judgeStop(c *sim.Case, r *sim.Result) (verdict, []string) {
 			if openIter {
 				labels = append(labels, "repeat-open-at-stop")
 			}
+			// a stop that returned while the step was sleeping out its repeat
+			// interval (strictly inside [exit, exit+interval)) must prevent the
+			// next iteration: the pause lasts at least the interval, so the
+			// loop's re-check of the cancel flag happens after the stop returned.
+			if s.RepeatIvUS > 0 {
+				usOf := map[int]int64{}
+				for _, ev := range tr {
+					usOf[ev.Seq] = ev.US
+				}
+				for att, en := range st.EnterOf {
+					if att < 2 || en < stopRet {
+						continue
+					}
+					if px, ok := st.ExitOf[att-1]; ok && px < stopCall && usOf[stopRet]+2 < usOf[px]+int64(s.RepeatIvUS) {
+						return verdict{fmt.Sprintf("repeating step %q: the stop request returned %dus after iteration %d had ended, inside the %dus pause between iterations, yet iteration %d was started", s.Name, usOf[stopRet]-usOf[px], att-1, s.RepeatIvUS, att), ""}, labels
+					}
+				}
+				for att, px := range st.ExitOf {
+					if px < stopCall && usOf[stopRet]+2 < usOf[px]+int64(s.RepeatIvUS) {
+						if _, more := st.EnterOf[att+1]; !more {
+							labels = append(labels, "stop-inside-repeat-pause")
+						}
+					}
+				}
+			}
 			if openIter && after > 0 {
 				return verdict{fmt.Sprintf("repeating step %q started %d further iteration(s) after the stop request returned while an iteration was open at the stop", s.Name, after), ""}, labels
 			}
@@ -263,7 +288,7 @@ func check(t rep.Fataler, c sim.Case) {
 	nt := false
 	for _, l := range labels {
 		switch l {
-		case "stop-with-open-attempts", "repeat-open-at-stop", "force-killed", "timeout-fired":
+		case "stop-with-open-attempts", "repeat-open-at-stop", "force-killed", "timeout-fired", "stop-inside-repeat-pause":
 			nt = true
 		}
 	}
